@@ -16,6 +16,7 @@ open EasyList
 open UserField
 open Package
 open ParseSites
+open Doc
 
 type sx = A of string | L of sx list
 
@@ -264,6 +265,18 @@ let dispatch (f : string) (args : sx list) : sx =
   | "pkg_load_reads", [L man] ->
       let m = SL.map (function L [a; b] -> (str_of_sx a, str_of_sx b) | _ -> failwith "man") man in
       L (SL.map sx_of_str (ParseSites.load_reads m))
+  | "doc_render", [A kind; env; L [mime; me; sc; ff; se; st; au; ma; bo]] ->
+      let d = { d_mime = str_of_sx mime; d_meta = node_of_sx me; d_scripts = node_of_sx sc; d_ffd = node_of_sx ff; d_settings = node_of_sx se;
+                d_styles = node_of_sx st; d_auto = node_of_sx au; d_master = node_of_sx ma; d_body = node_of_sx bo } in
+      let e = env_of_sx env in
+      (match kind with
+       | "content" -> sx_of_str (Inst.i_contentxml e d)
+       | "styles" -> sx_of_str (Inst.i_stylesxml e d)
+       | "settings" -> sx_of_str (Inst.i_settingsxml e d)
+       | "meta" -> let (d', s) = Inst.i_metaxml e d in L [sx_of_node d'.d_meta; sx_of_str s]
+       | "xml" -> let (d', s) = Inst.i_flatxml e d in L [sx_of_node d'.d_meta; sx_of_str s]
+       | _ -> failwith "render kind")
+  | "doc_used", [L segs; au] -> L (SL.map sx_of_node (Inst.i_used_auto_styles (SL.map node_of_sx segs) (node_of_sx au)))
   | _ -> failwith ("unknown function " ^ f)
 
 let () =
